@@ -141,7 +141,8 @@ impl Parser {
                                 break;
                             }
 
-                            if let Ok(Some(field)) = self.parse_expr() {
+                            // an error leaves the cursor where it was: give up instead of reading the same token again
+                            if let Some(field) = self.parse_expr()? {
                                 fields.push(field);
                             }
                         }
@@ -149,7 +150,7 @@ impl Parser {
                 }
                 Some(Lexem::Open) | Some(Lexem::CurlyOpen) => {
                     self.drop_lexem();
-                    if let Ok(Some(field)) = self.parse_expr() {
+                    if let Some(field) = self.parse_expr()? {
                         fields.push(field);
                     }
                 }
